@@ -14,6 +14,7 @@ W_OUTSIDE = ["OS scheduling, real process spawn, shared-memory coherence between
 
 if MODE == "shim":
     from engine.shim import shims as _sh
+    SEEDS = []     # seed argument of every HyperLogLog _add call
     ADDS = []      # (store id of the first array argument, key)
     MERGES = []    # (dst store id, src store id)
 
@@ -26,6 +27,7 @@ if MODE == "shim":
     def _add_rec(*args):
         key = [a for a in args if isinstance(a, (bytes, bytearray))]
         ADDS.append((_first_store(args), key[0] if key else None))
+        SEEDS.append(args[1] if len(args) == 5 else None)   # hyperloglog._add(registers, seed, p, m, key)
         return 0
 
     def _merge_rec(*args):
@@ -51,6 +53,7 @@ if MODE == "shim":
     class WorkerKilled(BaseException):
         pass
 
+HLL_SEED = 5 + 2 ** 40 + 2 ** 63    # a seed that does not survive a 32-bit or float round trip
 CALLBACK_LOG = []
 RET = [1, 1, 1, 1, 1, 1]
 RAISE = [0, 0, 0, 0, 0, 0]     # 0: fine, 1: raises before touching the sketches, 2: raises after updating them
@@ -84,6 +87,7 @@ def _scheduler(proc):
 def _reset(assign, die=None, die_code=1):
     del CALLBACK_LOG[:]
     del ADDS[:]
+    del SEEDS[:]
     del MERGES[:]
     del SHM_EVENTS[:]
     _sh.MP.update({"assign": assign, "scheduler": _scheduler, "die": die, "die_code": die_code, "events": [], "procs": [], "current": None})
@@ -118,7 +122,7 @@ def _run_parallel(n_items, n_workers, assign, use_cms, use_hh, use_hll):
     if use_hh:
         kw["hh_args"] = {"width": 2, "depth": 1, "max_key_len": 3}
     if use_hll:
-        kw["hll_args"] = {"p": 7, "seed": 5}
+        kw["hll_args"] = {"p": 7, "seed": HLL_SEED}
     return HELPERS.parallel_add(items, callback, n_workers=n_workers, **kw)
 
 
@@ -144,6 +148,9 @@ def _check_result(res, n_items, n_workers, assign, kinds, processed):
         ok = ok and len(adds_k) == len(processed)
         if kind != "hll":
             ok = ok and ival(final.n_records()) == sum(RET[j] for j in processed if RAISE[j] == 0)
+        else:
+            # workers hash with the seed the caller asked for, and the returned sketch carries it
+            ok = ok and all(sd is None or sd == HLL_SEED for sd in SEEDS) and final.seed == HLL_SEED
     return ok
 
 
@@ -339,7 +346,7 @@ def _real_parallel(n_items, n_workers, rets, fails, kinds, items=None):
     if "hh" in kinds:
         kw["hh_args"] = {"width": 16, "depth": 2, "max_key_len": 3}
     if "hll" in kinds:
-        kw["hll_args"] = {"p": 7, "seed": 5}
+        kw["hll_args"] = {"p": 7, "seed": HLL_SEED}
     items = list(range(n_items)) if items is None else items
     try:
         res = HELPERS.parallel_add(items, real_callback, n_workers=n_workers, rets=list(RET), fails=list(RAISE), **kw)
@@ -366,7 +373,7 @@ def _real_parallel(n_items, n_workers, rets, fails, kinds, items=None):
             if int(sk.n_added()) != len(contributing):
                 msgs.append(f"{kind}: n_added()={int(sk.n_added())}, expected {len(contributing)}")
         if kind == "hll":
-            ref = HLL.HyperLogLog(7, 5)
+            ref = HLL.HyperLogLog(7, HLL_SEED)
             for j in contributing:
                 ref.add(b"k%d" % j)
             if not (np.array(ref.registers) == np.array(sk.registers)).all():
